@@ -23,7 +23,7 @@ from __future__ import annotations
 import ast
 
 from .. import sym
-from ..model import AnalysisError, Program, attr_chain, bind_args, norm_stmt
+from ..model import AnalysisError, as_increment, Program, attr_chain, bind_args, norm_stmt
 from ..paths import Arr, Const, Engine, Hooks, Opaque, Seq, State, vkey
 from ..report import Result
 from ..selftest import Variant
@@ -127,7 +127,7 @@ def _join(prog: Program, res: Result):
                 vn = tst.left.id
                 rhs = tst.comparators[0]
                 rhs_v = consts.get(rhs.id) if isinstance(rhs, ast.Name) else rhs
-                body_ok = any(isinstance(s, ast.AugAssign) and ast.unparse(s.target) == iv and isinstance(s.op, ast.Add) and ast.unparse(s.value) == "1" for s in w.body) \
+                body_ok = any(as_increment(s) is not None and as_increment(s)[0] == iv and ast.unparse(as_increment(s)[1]) == "1" for s in w.body) \
                     and any(isinstance(s, ast.Assign) and ast.unparse(s.targets[0]) == vn and ast.unparse(s.value) == f"log_time_sts[{iv}]" for s in w.body)
                 init_ok = iv in inits and ast.unparse(inits[iv]) == "0" and vn in inits and ast.unparse(inits[vn]) == f"log_time_sts[{iv}]"
                 okw = is_call(rhs_v, "min", "log_time_lts") and body_ok and init_ok
